@@ -115,4 +115,14 @@ PROPS = {
             {"name": "c11.faults", "pkg": UTILS, "test": "TestVerifC11Faults", "shards_t": 4},
         ],
     },
+    "C16": {
+        "level": "exploration",
+        "technique": "model-based (stateful) rapid property test: generated traces replayed on the real Manager with gated mock adapters, reference state machine as oracle",
+        "level_text": "Traces over register / re-register / unregister / retry tick with scripted outcome / peer-disappeared / restart / close are executed against the real Manager.handler (4 ms retry interval); mock adapters block in Start until the harness supplies the outcome, so the retry loop advances one observable step at a time; the reference model is fed by the observed Start/Close calls and compared with Sender()/Receiver() after every step.",
+        "level_note": "a permanent adapter that reports 'do not retry' is modelled as the code behaves (forgotten); liveness clauses use 5 s bounds against a 4 ms retry interval",
+        "assumptions": ["adapters have distinct addresses and endpoint IDs", "register-again is exercised while the first instance is started"],
+        "units": [
+            {"name": "c16.traces", "pkg": CLA, "test": "TestVerifC16Traces", "shards_t": 16, "shards_q": 4, "crash_is_violation": True},
+        ],
+    },
 }
